@@ -98,7 +98,7 @@ mod __verif_c02 {
         std::mem::forget(got);
     }
 
-    // @harness tiers=thorough timeout=2400
+    // @harness tiers=experimental timeout=2400
     // @encodes optimizer::rules::constant_folding::ConstantFolding::eval_int64
     // @bounds / and % with |l| < 2^20 and 0 < |r| < 2^10 (small widths so that the reference characterisation by multiplication stays cheap to bit-blast)
     // @oracle SQL integer division truncates toward zero: l = q*r + m with |m| < |r| and m = 0 or sign(m) = sign(l); the folded value is that q resp. m
@@ -120,7 +120,7 @@ mod __verif_c02 {
         assert!(m == 0 || (m < 0) == (l < 0), "C02.int_mod_has_sign_of_dividend");
     }
 
-    // @harness tiers=thorough timeout=2400
+    // @harness tiers=experimental timeout=2400
     // @encodes optimizer::rules::constant_folding::ConstantFolding::eval_int64
     // @bounds multiplication with |l| < 2^40 and |r| < 2^25 (products up to 2^65, so the overflow path is reachable), either operand order
     // @oracle exact product (computed in i128) when it fits in i64, else "do not fold"
